@@ -28,7 +28,7 @@ CONFIG = dict(
     min_nontrivial={"quick": 30, "thorough": 500},
     nshards={"quick": 4, "thorough": 8},
     timeout={"quick": 900, "thorough": 5400},
-    required_counters=("refused_first_attempts", "non_default_protocol_cases", "injections", "members_compared", "loads_compared"),
+    required_counters=("views_read_before_injection", "refused_first_attempts", "non_default_protocol_cases", "injections", "members_compared", "loads_compared"),
 )
 
 
@@ -51,7 +51,7 @@ REFUSED_PAYLOADS = [["vp_refused = 1", None], None, ("vp_refused = 2", object())
                     {"vp_refused = 4": {5}}, b"\xff\xfe" * 3 + b"\x00" if False else ["vp_refused = 5", b"\xff", {"k": None}]]
 
 
-def run_case(ctx, mods, label, obj, text, overwrite, raw=False, proto=None, refused_first=None):
+def run_case(ctx, mods, label, obj, text, overwrite, raw=False, proto=None, refused_first=None, touch_first=None):
     torch, f, PyTorchModelWrapper = mods
     import vp_sink
     agg = ctx.agg
@@ -67,7 +67,7 @@ def run_case(ctx, mods, label, obj, text, overwrite, raw=False, proto=None, refu
     with open(src, "rb") as fh:
         src_bytes = fh.read()
     payload = text if raw else f"__import__('vp_sink').hit('C16', {text!r})"
-    key = h(hashlib.sha256(src_bytes).hexdigest() + "|" + payload + "|" + str(overwrite) + ("|refused%s" % refused_first if refused_first is not None else ""))
+    key = h(hashlib.sha256(src_bytes).hexdigest() + "|" + payload + "|" + str(overwrite) + ("|refused%s" % refused_first if refused_first is not None else "") + ("|touch:" + touch_first if touch_first else ""))
     ntens = len(torchfiles.storage_partition(torch, obj))
     if not agg.case(key, ntens > 0, {"model": label, "payload": payload[:80], "overwrite": overwrite, "tensors": ntens}):
         return
@@ -84,6 +84,16 @@ def run_case(ctx, mods, label, obj, text, overwrite, raw=False, proto=None, refu
                 with warnings.catch_warnings():
                     warnings.simplefilter("ignore")
                     wrapper = PyTorchModelWrapper(src)
+                    if touch_first:
+                        # the wrapper's public read-only views, looked at before the injection
+                        if "pickled" in touch_first:
+                            pk = wrapper.pickled
+                            len(pk), pk.dumps(), pk.ast
+                        if "formats" in touch_first:
+                            wrapper.formats
+                        if "validate" in touch_first:
+                            wrapper.validate_file_format()
+                        agg.count("views_read_before_injection")
                     if refused_first is not None:
                         # history on one wrapper: a call that is refused, then the valid one
                         try:
@@ -227,6 +237,12 @@ def run_shard(ctx):
             i += 1
             if i % ctx.nshards == ctx.shard:
                 run_case(ctx, mods, label + "+refused-first", obj, texts[i % len(texts)], bool(i % 2), refused_first=ri)
+    # the wrapper's read-only properties are read before the injection (scan, then inject)
+    for label, obj in list(torchfiles.models(torch, asm.rng_for(ctx.seed, "c16touch"), 0))[:10]:
+        for touch in ("pickled", "formats", "pickled+formats", "validate+pickled"):
+            i += 1
+            if i % ctx.nshards == ctx.shard:
+                run_case(ctx, mods, label + "+read-first", obj, texts[i % len(texts)], bool(i % 2), touch_first=touch)
     # other pickle protocols of torch.save, incl. model pickles large enough to be split over several FRAMEs
     big = [("big_pickle_few_tensors", {"w": torch.ones(2, 2), "meta": {("key_%05d" % k) * 4: k for k in range(4000)}}),
            ("many_small_tensors", {"t%d" % k: torch.full((1,), float(k)) for k in range({"quick": 1300, "thorough": 2600}[ctx.tier])})]
